@@ -23,11 +23,16 @@ func (w *World) payloadSeeds() map[string]string {
 	}
 	hypAll := Fwd{Kind: "hyp", Domain: 1, Token: w.TokenT0.Bytes(), Recipient: b32(5), Hook: w.HookH0.Bytes(), HookMeta: "0xabcd", GasLimit: "1", MaxFee: "1uusdc", Passthrough: []byte{1, 2}}
 	cctpAll := Fwd{Kind: "cctp", Domain: 0, MintRecipient: b32(9), Caller: b32(3), Passthrough: []byte{1}}
-	fw := map[string]Fwd{"cctp": w.FwdCCTP(0), "hyp": w.FwdHyp(1), "internal": w.FwdInternal(w.Bob), "hypAll": hypAll, "cctpAll": cctpAll}
+	// Hyperlane routes whose hook chain contains an interchain gas paymaster (as the mailbox's required hook, and named
+	// as custom hook): gas limit and max fee reach third-party arithmetic
+	hypIGP := w.FwdHypIGP("500uigp")
+	hypIGP.GasLimit = "1"
+	hypCustomIGP := Fwd{Kind: "hyp", Domain: 1, Token: w.TokenT0.Bytes(), Recipient: b32(5), Hook: w.IgpI1.Bytes(), GasLimit: "1", MaxFee: "500uigp"}
+	fw := map[string]Fwd{"cctp": w.FwdCCTP(0), "hyp": w.FwdHyp(1), "internal": w.FwdInternal(w.Bob), "hypAll": hypAll, "cctpAll": cctpAll, "hypIGP": hypIGP, "hypCustomIGP": hypCustomIGP}
 	out := map[string]string{}
 	for fn, f := range fw {
 		for en, fe := range fees {
-			if (fn == "hypAll" || fn == "cctpAll") && en != "bps" {
+			if (fn == "hypAll" || fn == "cctpAll" || fn == "hypIGP" || fn == "hypCustomIGP") && en != "bps" {
 				continue
 			}
 			out[fn+"/"+en] = Memo(f, fe)
@@ -251,6 +256,47 @@ func checkC14(tier string) *Report {
 			}
 		}
 	}
+	// FOREIGN TYPES: the memo is decoded with the application-wide interface registry, so an Any in the memo may
+	// name ANY type the chain registers and is decoded by that type's own JSON code before orbiter checks that it is
+	// an attributes type. Every resolvable type URL × every field of that type (both JSON names) × a junk-value menu,
+	// once as forwarding attributes and once as the attributes of a pre-action; plus the bare type and an unknown
+	// member. (Found necessary by an independent reviewer: /cosmos.crypto.secp256r1.PubKey with "key":0.)
+	nForeign := 0
+	for _, u := range w0.allResolvableTypeURLs() {
+		var fields []string
+		if md := pref.msg(strings.TrimPrefix(u, "/")); md != nil {
+			fs := md.Fields()
+			for i := 0; i < fs.Len(); i++ {
+				fields = append(fields, string(fs.Get(i).Name()))
+				if j := fs.Get(i).JSONName(); j != string(fs.Get(i).Name()) {
+					fields = append(fields, j)
+				}
+			}
+		}
+		bodies := []string{fmt.Sprintf(`{"@type":%s}`, jstr(u)), fmt.Sprintf(`{"@type":%s,"zz_unknown":1}`, jstr(u))}
+		for _, f := range fields {
+			for _, v := range foreignJunk {
+				bodies = append(bodies, fmt.Sprintf(`{"@type":%s,%s:%s}`, jstr(u), jstr(f), v))
+			}
+		}
+		if !full && len(bodies) > 2 {
+			// quick: the bare forms and, per field, a reduced junk menu (every third value, rotating)
+			var red []string
+			for i, b := range bodies {
+				if i < 2 || i%3 == len(u)%3 {
+					red = append(red, b)
+				}
+			}
+			bodies = red
+		}
+		for _, b := range bodies {
+			nForeign += 2
+			inputs = append(inputs,
+				input{"foreign fwd attrs " + trunc(b, 160), NewPkt("channel-1", denomUSDC, "1000", w0.Orb.String(), `{"orbiter":{"forwarding":{"protocol_id":"PROTOCOL_INTERNAL","attributes":`+b+`}}}`), []int{0}},
+				input{"foreign action attrs " + trunc(b, 160), NewPkt("channel-1", denomUSDC, "1000", w0.Orb.String(), `{"orbiter":{"pre_actions":[{"id":"ACTION_FEE","attributes":`+b+`}],"forwarding":{"protocol_id":"PROTOCOL_INTERNAL","attributes":`+w0.FwdInternal(w0.Bob).attrsJSON()+`}}}`), []int{0}})
+		}
+	}
+	rep.Extra["foreign_type_inputs"] = nForeign
 	for _, p := range w0.c14PacketLevel() {
 		inputs = append(inputs, input{"packet " + p.String(), p, all})
 	}
@@ -313,6 +359,26 @@ func checkC14(tier string) *Report {
 	rep.Guard(rep.Outcomes["success-ack"] > 100 && rep.Outcomes["error-ack"] > 1000, "outcome classes missing: %v", rep.Outcomes)
 	rep.Guard(nSingles > 3000, "too few mutations: %d", nSingles)
 	return rep
+}
+
+// foreignJunk: JSON values given to each field of a foreign type (raw JSON text).
+var foreignJunk = []string{`0`, `1`, `-1`, `1.5`, `1e400`, `""`, `"x"`, `"0"`, `"AA=="`, `null`, `true`, `{}`, `[]`, `[0]`, `[""]`, `{"a":1}`,
+	`"` + maxUint256Str + `"`, `"2024-01-01T00:00:00Z"`, `"1s"`, `{"@type":"/cosmos.crypto.secp256r1.PubKey","key":0}`}
+
+// allResolvableTypeURLs: every implementation of every interface the application's registry knows (sorted).
+func (w *World) allResolvableTypeURLs() []string {
+	seen := map[string]bool{}
+	var out []string
+	for _, iface := range w.App.interfaceRegistry.ListAllInterfaces() {
+		for _, u := range w.App.interfaceRegistry.ListImplementations(iface) {
+			if !seen[u] {
+				seen[u] = true
+				out = append(out, u)
+			}
+		}
+	}
+	sortStringsInPlace(out)
+	return out
 }
 
 func samePathPrefix(a, b jpath) bool {
